@@ -238,6 +238,62 @@ def run(ctx):
     from . import C13 as _C13
     _C13.self_edge_obligation(ctx, usv, "R12.8")
 
+    # ---- R12.9: the preset-specific default key
+    ctx.rule("R12.9", "KEY-CAPACITY: the buffer in which get_default_value composes the preset-specific key `default <value of the depended port>` holds the annotation, a blank and any printed 32-bit integer (11 characters) with its terminator - a shorter buffer looks a two-digit preset up under the key of another preset")
+    import re as _re9
+    udv = ctx.ast("default-value.cpp")
+    gdv = udv.function("get_default_value")
+    ann = None
+    for x in A.walk(udv.body(gdv)):
+        if x.get("kind") == "VarDecl" and A.kids(x):
+            lit = A.string_literal(A.kids(x)[-1])
+            if lit is None and A.kids(x)[-1].get("kind") == "InitListExpr" and len(A.kids(A.kids(x)[-1])) == 1:
+                lit = A.string_literal(A.kids(A.kids(x)[-1])[0])
+            if lit == "default":
+                ann = x
+    ctx.require(ann is not None, "R12.9: the `default` annotation literal was not found in get_default_value")
+
+    def _capacity(e, depth=0):
+        """capacity in bytes of the object an expression of the lookup key lives in (None: not a bounded array)"""
+        e = A.strip_casts(e)
+        if e.get("kind") == "CXXMemberCallExpr" and A.strip_casts(A.kids(e)[0]).get("name") in ("c_str", "data"):
+            return float("inf"), "std::string"
+        if e.get("kind") == "DeclRefExpr" and depth < 4:
+            d = udv.by_id.get((e.get("referencedDecl") or {}).get("id"))
+            if d is None:
+                return None, None
+            t = A.qtype(d) or ""
+            m = _re9.search(r"\[(\d+)\]\s*$", t)
+            if m:
+                return int(m.group(1)), "%s %s" % (t, d.get("name"))
+            if "basic_string" in t or t.endswith("std::string"):
+                return float("inf"), "std::string"
+            if A.kids(d) and "*" in t:
+                return _capacity(A.kids(d)[-1], depth + 1)
+        return None, None
+    keys9 = []
+    for x in A.walk(udv.body(gdv)):
+        if x.get("kind") == "CXXOperatorCallExpr" and A.kids(x) and "operator[]" in A.src(A.kids(x)[0]) and "MetaContainer" in (A.qtype(A.kids(x)[1]) or ""):
+            arg = A.strip_casts(A.kids(x)[2])
+            if A.string_literal(arg) is not None:
+                continue
+            aid = A.ref_id(arg)
+            if aid == ann["id"]:
+                continue                   # the plain `default` lookup
+            d_ = udv.by_id.get(aid) if aid else None
+            if d_ is not None and A.kids(d_) and A.string_literal(A.kids(d_)[-1]) is not None:
+                continue                   # a named literal key (`default depends`)
+            keys9.append((x, arg))
+    ctx.require(len(keys9) >= 1, "R12.9: the lookup of the composed `default <value>` key was not found")
+    need9 = len("default") + 1 + 11 + 1
+    for x, arg in keys9:
+        cap, what9 = _capacity(arg)
+        if cap is None:
+            raise AnalysisBroken("R12.9: the buffer behind the composed key `%s` was not recognised" % A.src(arg))
+        ctx.ob("R12.9", "key `%s`" % A.src(arg), cap >= need9, site=A.where(x), detail={"buffer": what9, "capacity": cap if cap != float("inf") else "unbounded", "needed": need9},
+               key="R12.9:%s" % A.src(arg),
+               what="get_default_value composes the key `default <value>` in %s (%s bytes); \"default \" plus a printed 32-bit integer needs %d" % (what9, cap, need9))
+
 def S_contains(root, node):
     nid = node.get("id")
     for x in A.walk(root):
